@@ -292,8 +292,7 @@ func (t *tr) finish() {
 		if pan != nil {
 			t.cur = pan
 			t.assign(t.panicking, tTrue)
-			pv := t.fresh(t.panicVal)
-			t.assume(neq(pv, intLit(0)))
+			t.assume(neq(t.read(t.panicVal), intLit(0)))
 			pan = t.cur
 		}
 		t.cur = t.join(normal, pan)
@@ -394,6 +393,7 @@ func (t *tr) finish() {
 	if pan != nil {
 		t.cur = pan
 		sc := t.unitSpecCtx(t.cur.Env)
+		sc.vars["panicval"] = t.read(t.panicVal)
 		if !mayPanic {
 			var conds []Term
 			for _, cl := range panicsIf {
